@@ -845,6 +845,11 @@ func h5Dist(env *Env, c *H5Cfg, sh *h5Shared) {
 	f := c.FreqMs * ms
 	n := int(f / (100 * ms))
 	passthrough := c.Dist == "none" || f <= 100*ms
+	if want := h5Interval(c); sh.iterDurNs != want {
+		env.Violate("C12", "wrong-subtick-interval", "dist/"+c.Dist, "distribution %s over an interval of %s ticks every %s, expected %s (sub-ticks of 100 ms; intervals of 100 ms or less and distribution none unchanged)",
+			c.Dist, dur(f), dur(sh.iterDurNs), dur(want))
+		return
+	}
 	if passthrough {
 		if len(sh.inner) != len(sh.outer) {
 			env.Violate("C12", "passthrough-broken", "dist/"+c.Dist, "%d underlying evaluations for %d ticks (interval %s, distribution %s)", len(sh.inner), len(sh.outer), dur(f), c.Dist)
